@@ -357,7 +357,12 @@ class C10(Check):
                 if x["file"] != path:
                     continue
                 f = x["finding"]
-                rid = f.get("rule") or f.get("ruleKey") or f.get("ruleId") or f.get("title")
+                if kind.startswith("sonar"):
+                    rid = f.get("rule") or f.get("ruleKey")
+                elif kind == "semgrep":
+                    rid = f.get("ruleId")
+                else:
+                    rid = f.get("title")
                 st = str(f.get("status", "OPEN")).lower()
                 if rid in rules and st in ("open", "to_review"):
                     n += 1
